@@ -367,10 +367,17 @@ def gen_fn_case(rng):
     f1, f2 = rng.choice(['rec.f', 'rec.g']), rng.choice(['rec.f', 'rec.g'])
     k1, k2 = rng.choice(['call', 'bind']), rng.choice(['call', 'bind'])
     args = rng.sample(['a', 'b', 'p', 'q'], rng.choice([1, 2, 3]))
-    base = G.nest(prefix + ['opt'], M([(a, S(rng.choice([1, 'x', True]))) for a in args], tag={'k': k1, 'f': f1}))
+    scalar_base = rng.random() < 0.25
+    if scalar_base:
+        # the key holds a SCALAR so far: a function node written over it below !notnew brings arguments, every one of them a new path
+        # (seeded change S9-C08: the check of what a replacement brings along was skipped for nodes that call themselves leaves)
+        args = []
+        base = G.nest(prefix + ['opt'], S(rng.choice([5, 'adam', True])))
+    else:
+        base = G.nest(prefix + ['opt'], M([(a, S(rng.choice([1, 'x', True]))) for a in args], tag={'k': k1, 'f': f1}))
     base['m'].append([sc_json('k'), S(1)])
     keep = [a for a in args if rng.random() < 0.6]
-    new = rng.sample(['start', 'zz', 'n2'], rng.choice([0, 0, 1, 1, 2]))
+    new = rng.sample(['start', 'zz', 'n2'], rng.choice([0, 0, 1, 1, 2]) if not scalar_base else rng.choice([1, 1, 2]))
     items = [(a, S(rng.choice([2, 'y', None]))) for a in keep + new]
     rng.shuffle(items)
     over = G.nest(prefix + ['opt'], M(items, tag={'k': k2, 'f': f2}, kw=rng.choice([{}, {}, {'del': False}, {'prio': 1}])))
@@ -379,7 +386,7 @@ def gen_fn_case(rng):
     for k in prefix + ['opt']:
         okw = next(c for kk, c in okw['m'] if sc_py(kk) == k)
     return {'docs': [{'raw': base}, {'raw': over}], 'style': ['flow', 0, 0], 'kind': 'F', 'fnpath': prefix + ['opt'], 'old': args, 'new': new,
-            'incoming': keep + new, 'replaces': f1 != f2 and (okw.get('kw') or {}).get('del') is not False}
+            'incoming': keep + new, 'replaces': scalar_base or (f1 != f2 and (okw.get('kw') or {}).get('del') is not False)}
 
 class C08(MergeFamProp):
     ID = 'C08'
